@@ -652,6 +652,19 @@ def splice_closures(text, closure_specs):
             raise Undecided('splice: closure %d not found (function has %d closures)' % (k, len(cl)))
         b1, b2 = cl[k]
         nx = _next_code(toks, b2)
+        # `$1`, `$2`, .. in a closure contract stand for the names of the closure's own parameters (when they are plain identifiers):
+        # a renamed parameter keeps its contract
+        if '$' in head:
+            pnames = _split_params(toks[b1 + 1:b2])
+            for n, pn in enumerate(pnames, 1):
+                pn = pn.split(':')[0].strip()
+                pn = re.sub(r'^(mut|ref)\s+', '', pn)
+                if ('$%d' % n) in head:
+                    if pn == '_':
+                        pn = 'vx_p%d' % n      # an ignored parameter gets a name (Verus rejects `_` closure parameters)
+                    if not re.match(r'^[A-Za-z_][A-Za-z0-9_]*$', pn):
+                        raise Undecided('splice: closure %d parameter %d is not a plain identifier (%r)' % (k, n, pn))
+                    head = head.replace('$%d' % n, pn)
         # R13: a closure parameter pattern `|(a, b)|` becomes `|p| { let (a, b) = p; .. }` (given as `//@bind let .. ;`)
         binds = [l.strip()[len('//@bind'):].strip() for l in head.split('\n') if l.strip().startswith('//@bind')]
         head = '\n'.join(l for l in head.split('\n') if not l.strip().startswith('//@bind'))
